@@ -1,2 +1,107 @@
+"""Thorough tier: proof stability and contract-adequacy self test (deliberate breakages of the extracted text)."""
+import concurrent.futures as cf
+import json
+import os
+import shutil
+
+from . import driver, gen, verus
+
+
+def _stability(uname, seed):
+    """re-verify with halved rlimit and three seeds; a proof that flips is unstable"""
+    tpl = os.path.join(driver.CONTRACTS, uname.lower() + ".vx.rs")
+    unit = gen.expand(tpl, driver.REPO)
+    unit.gen_path = os.path.join(driver.BUILD, uname.lower() + "_stab.rs")
+    with open(unit.gen_path, "w") as f:
+        f.write(unit.text())
+    runs = []
+    for i in range(3):
+        r = verus.run_verus(unit.gen_path, ["--rlimit", "5", "--smt-option", "smt.random_seed=%d" % (seed + i + 1)])
+        s = verus.summarize(r)
+        runs.append({"seed": seed + i + 1, "rlimit": 5, "ok": s["ok"], "verified": s["verified"], "errors": s["errors"],
+                     "smt_ms": s["smt_ms"]})
+    return runs
+
+
+def _mutant(idx, m):
+    """apply one find/replace to a scratch copy of the file and verify the unit against it"""
+    root = os.path.join(driver.BUILD, "selftest", "m%d" % idx)
+    shutil.rmtree(root, ignore_errors=True)
+    # scratch tree = symlinks to the real files except the mutated one
+    src = os.path.join(driver.REPO, m["file"])
+    with open(src, encoding="utf-8") as f:
+        text = f.read()
+    if text.count(m["find"]) < 1:
+        return {"mutant": idx, "status": "stale", "detail": "pattern not found in %s" % m["file"]}
+    text = text.replace(m["find"], m["replace"], 1)
+    for dp, dn, fns in os.walk(os.path.join(driver.REPO, "src")):
+        rel = os.path.relpath(dp, driver.REPO)
+        os.makedirs(os.path.join(root, rel), exist_ok=True)
+        for fn in fns:
+            if fn.endswith(".rs"):
+                a, b = os.path.join(dp, fn), os.path.join(root, rel, fn)
+                if os.path.join(rel, fn) == m["file"]:
+                    with open(b, "w", encoding="utf-8") as f:
+                        f.write(text)
+                else:
+                    os.symlink(a, b)
+    tpl = os.path.join(driver.CONTRACTS, m["unit"] + ".vx.rs")
+    try:
+        gen.clear_cache()
+        unit = gen.expand(tpl, root)
+    except gen.GenError as e:
+        shutil.rmtree(root, ignore_errors=True)
+        return {"mutant": idx, "status": "undecided", "detail": "extraction: " + str(e)[:200]}
+    unit.gen_path = os.path.join(driver.BUILD, "selftest_m%d.rs" % idx)
+    with open(unit.gen_path, "w") as f:
+        f.write(unit.text())
+    r = verus.run_verus(unit.gen_path, ["--multiple-errors", "5"])
+    s = verus.summarize(r)
+    fl, und = verus.classify(r, unit)
+    shutil.rmtree(root, ignore_errors=True)
+    try:
+        os.remove(unit.gen_path)
+    except OSError:
+        pass
+    labels = [(f.get("label") or f["kind"]) for f in fl]
+    killed = any(m["kills"] in (l or "") for l in labels)
+    if s["tool_error"]:
+        return {"mutant": idx, "status": "undecided", "detail": s["tool_error"][:200]}
+    return {"mutant": idx, "status": "killed" if killed else ("killed-by-other" if fl else "SURVIVED"),
+            "expected": m["kills"], "failed": sorted(set(labels))[:6]}
+
+
 def run(pid, cfg, results, seed):
-    return {}
+    info = {"stability": {}, "selftest": []}
+    undecided = []
+    units = [u.lower() for u in cfg["units"]]
+    # the lexer unit also carries the POS functions; `pos` mutants are decided by whichever unit includes them
+    with open(os.path.join(driver.VERIF, "selftest", "mutants.json")) as f:
+        muts = json.load(f)
+    mine = []
+    for i, m in enumerate(muts):
+        u = m["unit"]
+        if u in units or (u == "pos" and ("lex" in units or "render" in units)):
+            mm = dict(m)
+            if u == "pos":
+                mm["unit"] = "lex" if "lex" in units else "render"
+            mine.append((i, mm))
+    with cf.ThreadPoolExecutor(max_workers=8) as ex:
+        stab = {u: ex.submit(_stability, u, seed) for u in units}
+        mres = [ex.submit(_mutant, i, m) for (i, m) in mine]
+        for u, fu in stab.items():
+            runs = fu.result()
+            info["stability"][u.upper()] = runs
+            if not all(r["ok"] for r in runs):
+                undecided.append("%s: proof is unstable under halved rlimit / other seeds: %s" % (u.upper(), runs))
+        for fu in mres:
+            r = fu.result()
+            info["selftest"].append(r)
+            if r["status"] == "SURVIVED":
+                undecided.append("selftest mutant %d survived (expected to fail %s): the contract is too weak" % (r["mutant"], r.get("expected")))
+            elif r["status"] in ("stale", "undecided"):
+                undecided.append("selftest mutant %d is %s: %s" % (r["mutant"], r["status"], r.get("detail")))
+    info["selftest_killed"] = len([r for r in info["selftest"] if r["status"].startswith("killed")])
+    info["selftest_total"] = len(info["selftest"])
+    info["undecided"] = undecided
+    return info
